@@ -19,14 +19,11 @@ from tools.gen import seq as gen_seq
 from tools.gen.csrc import ExtractError
 
 THEOREMS = []  # filled below once Props/C04.lean exists (kept in one place: THEOREM_NAMES)
-THEOREM_NAMES_PLANNED = """
-inv_init inv_put inv_remove inv_rehash inv_clear inv_clone inv_merge inv_reachable
-abs_put abs_remove abs_clear abs_clone abs_merge abs_run
-rawget_spec get_spec length_eq_card next_visits_each_key_once no_null_deref
-arr_inv_reachable abs_push abs_pop abs_insert abs_remove_partial aremove_overflow_ub abs_slice abs_fill
-abs_putindex_partial putindex_gap_uninit no_oob_in no_oob_get no_oob_halfrange no_oob_slice
+THEOREM_NAMES = """
+inv_init abs_init inv_put abs_put inv_remove abs_remove inv_rehash inv_clear abs_clear inv_clone abs_clone inv_merge abs_merge
+step_refines inv_reachable abs_run rawget_spec get_spec get_depth_cutoff proto_irrelevant bad_sticky_run
+no_oob_in no_oob_get no_oob_halfrange no_oob_slice aremove_no_ub aremove_overflow_ub putindex_fills_gap putindex_gap_uninit
 """.split()
-THEOREM_NAMES = []
 ENV = dict(os.environ, ASAN_OPTIONS="detect_leaks=0:abort_on_error=0:allocator_may_return_null=1", UBSAN_OPTIONS="print_stacktrace=1")
 NT, NS, NA, NB = 4, 2, 3, 3
 # memmove/memcpy(NULL, x, 0) on empty arrays (array.c, UB by the letter, harmless) must not abort the harness
